@@ -1,0 +1,89 @@
+//go:build verif
+
+package safehtml
+
+import (
+	"unicode"
+
+	"github.com/google/safehtml/internal/safehtmlutil"
+)
+
+// This file only exports unexported values and functions to verification
+// tooling. It is compiled only with the "verif" build tag.
+
+// VerifRegexps returns the source text of every package-level regular
+// expression of packages safehtml and internal/safehtmlutil.
+func VerifRegexps() map[string]string {
+	m := map[string]string{
+		"startsWithAlphabetPattern":             startsWithAlphabetPattern.String(),
+		"onlyAlphanumericsOrHyphenPattern":      onlyAlphanumericsOrHyphenPattern.String(),
+		"safeURLPattern":                        safeURLPattern.String(),
+		"trustedResourceURLFormatMarkerPattern": trustedResourceURLFormatMarkerPattern.String(),
+		"identifierPattern":                     identifierPattern.String(),
+		"safeRegularPropertyValuePattern":       safeRegularPropertyValuePattern.String(),
+		"safeEnumPropertyValuePattern":          safeEnumPropertyValuePattern.String(),
+		"cssStringPattern":                      cssStringPattern.String(),
+		"invalidCSSSelectorRune":                invalidCSSSelectorRune.String(),
+		"jsIdentifierPattern":                   jsIdentifierPattern.String(),
+	}
+	for k, v := range safehtmlutil.VerifRegexps() {
+		m[k] = v
+	}
+	return m
+}
+
+// VerifControlAndNonCharacter returns the range table used by
+// coerceToUTF8InterchangeValid.
+func VerifControlAndNonCharacter() *unicode.RangeTable { return controlAndNonCharacter }
+
+// VerifByteTables returns the byte-class tables of urlset.go.
+func VerifByteTables() map[string][256]bool {
+	return map[string][256]bool{
+		"asciiWhitespace": asciiWhitespace,
+		"srcsetMetachars": srcsetMetachars,
+	}
+}
+
+// VerifMatchingBrackets returns the bracket table of stylesheet.go.
+func VerifMatchingBrackets() map[byte]byte { return matchingBrackets }
+
+func VerifIsSafeURL(s string) bool                       { return isSafeURL(s) }
+func VerifCoerceToUTF8InterchangeValid(s string) string  { return coerceToUTF8InterchangeValid(s) }
+func VerifCSSEscapeString(s string) string               { return cssEscapeString(s) }
+func VerifSelectorWithoutStrings(s string) string        { return cssStringPattern.ReplaceAllString(s, "") }
+func VerifHasBalancedBrackets(s string) bool             { return hasBalancedBrackets(s) }
+func VerifIsOptionalSrcMetadataWellFormed(s string) bool { return isOptionalSrcMetadataWellFormed(s) }
+func VerifIsSafeTrustedResourceURLPrefix(s string) bool {
+	return safehtmlutil.IsSafeTrustedResourceURLPrefix(s)
+}
+func VerifURLContainsDoubleDotSegment(s string) bool {
+	return safehtmlutil.URLContainsDoubleDotSegment(s)
+}
+func VerifQueryEscapeURL(s string) string { return safehtmlutil.QueryEscapeURL(s) }
+func VerifNormalizeURL(s string) string   { return safehtmlutil.NormalizeURL(s) }
+func VerifTrustedResourceURLFormat(format string, args map[string]string) (TrustedResourceURL, error) {
+	return trustedResourceURLFormat(format, args)
+}
+
+// VerifRaw builds safe-type values from arbitrary strings (what
+// uncheckedconversions does), so that the harness needs a single import.
+func VerifRawHTML(s string) HTML                             { return HTML{s} }
+func VerifRawScript(s string) Script                         { return Script{s} }
+func VerifRawStyle(s string) Style                           { return Style{s} }
+func VerifRawStyleSheet(s string) StyleSheet                 { return StyleSheet{s} }
+func VerifRawURL(s string) URL                               { return URL{s} }
+func VerifRawTrustedResourceURL(s string) TrustedResourceURL { return TrustedResourceURL{s} }
+func VerifRawIdentifier(s string) Identifier                 { return Identifier{s} }
+
+// VerifIdentifierFromConstant and friends call the constant-gated
+// constructors with run-time strings.
+func VerifIdentifierFromConstant(v string) Identifier {
+	return IdentifierFromConstant(stringConstant(v))
+}
+func VerifIdentifierFromConstantPrefix(p, v string) Identifier {
+	return IdentifierFromConstantPrefix(stringConstant(p), v)
+}
+func VerifScriptFromDataAndConstant(name string, data interface{}, script string) (Script, error) {
+	return ScriptFromDataAndConstant(stringConstant(name), data, stringConstant(script))
+}
+func VerifStyleFromConstant(s string) Style { return StyleFromConstant(stringConstant(s)) }
